@@ -7,6 +7,7 @@ import (
 
 	"go.etcd.io/bbolt"
 
+	"github.com/openziti/storage/ast"
 	"github.com/openziti/storage/verifrt"
 )
 
@@ -174,4 +175,101 @@ func VerifC06_DeleteTargetLeavesNoTrace() {
 		verifrt.Assert(!verifScanForId(tx, vVictim), "C06 after the committed delete the target's id occurs nowhere")
 		verifrt.Assert(ValidateDeleted(tx, vVictim) == nil, "C06 ValidateDeleted finds no trace of the target")
 	})
+}
+
+// second child store with an index of its own
+type vTransit struct {
+	vEmp
+	Token string
+}
+
+type vTransitStrategy struct{ parent *vEmpStore }
+
+func (s *vTransitStrategy) NewEntity() *vTransit { return new(vTransit) }
+func (s *vTransitStrategy) FillEntity(e *vTransit, b *TypedBucket) {
+	_, err := s.parent.LoadEntity(b.Tx(), e.Id, &e.vEmp)
+	b.SetError(err)
+	e.Token = b.GetStringOrError("token")
+}
+func (s *vTransitStrategy) PersistEntity(e *vTransit, ctx *PersistContext) {
+	s.parent.GetEntityStrategy().PersistEntity(&e.vEmp, ctx.GetParentContext())
+	ctx.SetString("token", e.Token)
+}
+
+type vTransitStore struct {
+	*BaseStore[*vTransit]
+}
+
+func verifNewTransitStore(parent *vEmpStore) *vTransitStore {
+	def := StoreDefinition[*vTransit]{
+		EntityStrategy:  &vTransitStrategy{parent: parent},
+		EntityNotFoundF: func(id string) error { return NewNotFoundError(parent.GetSingularEntityType(), "id", id) },
+		BasePath:        []string{"transit"},
+		Parent:          parent,
+		ParentMapper: func(e Entity) Entity {
+			if m, ok := e.(*vTransit); ok {
+				return &m.vEmp
+			}
+			return e
+		},
+	}
+	s := &vTransitStore{BaseStore: NewBaseStore(def)}
+	s.InitImpl(s)
+	parent.GrantSymbols(s)
+	s.AddUniqueIndex(s.AddSymbol("token", ast.NodeTypeString))
+	parent.RegisterChildStoreStrategy(&ChildStoreUpdateHandler[*vEmp, *vTransit]{
+		Store: s,
+		Mapper: func(ctx MutateContext, p *vEmp) (*vTransit, bool) {
+			if !s.IsEntityPresent(ctx.Tx(), p.Id) {
+				return nil, false
+			}
+			m, found, _ := s.FindById(ctx.Tx(), p.Id)
+			if !found {
+				return nil, false
+			}
+			m.vEmp = *p
+			return m, true
+		},
+	})
+	return s
+}
+
+// VerifC06_SeveralChildStores: a parent with an extended child store and a
+// second child store that owns a unique index; an entity of the second child
+// store is deleted through the parent (or either child) store.
+func VerifC06_SeveralChildStores() {
+	cfg := vStoreCfg{nickNullable: true}
+	env := verifNewEnv(cfg)
+	defer env.close()
+	ext := verifNewMgrStore(env.emp, true)
+	transit := verifNewTransitStore(env.emp)
+	err := env.update(func(ctx MutateContext) error {
+		h := &vErrHolder{}
+		transit.InitializeIndexes(ctx.Tx(), h)
+		return h.err
+	})
+	verifrt.Assert(err == nil, "C06 child index initialisation succeeds")
+	tok := verifrt.String("token", 1)
+	err = env.update(func(ctx MutateContext) error {
+		return transit.Create(ctx, &vTransit{vEmp: vEmp{Id: vVictim, Name: "Nv"}, Token: tok})
+	})
+	verifrt.Assert(err == nil, "C06 creating through the second child store succeeds")
+	via := verifrt.Choose("via", 3)
+	err = env.update(func(ctx MutateContext) error {
+		switch via {
+		case 0:
+			return env.emp.DeleteById(ctx, vVictim)
+		case 1:
+			return ext.DeleteById(ctx, vVictim)
+		}
+		return transit.DeleteById(ctx, vVictim)
+	})
+	verifrt.Assert(err == nil, "C06 delete through any store of the family succeeds")
+	env.view(func(tx *bbolt.Tx) {
+		verifrt.Assert(!verifScanForId(tx, vVictim), "C06 no trace of the id in any child store's data or indexes")
+	})
+	err = env.update(func(ctx MutateContext) error {
+		return transit.Create(ctx, &vTransit{vEmp: vEmp{Id: "again", Name: "Nv"}, Token: tok})
+	})
+	verifrt.Assert(err == nil, "C06 the deleted entity's unique values are free again")
 }
